@@ -324,6 +324,39 @@ def prove(prog, s, ctx):
                             gf = facts_at(f, R, c['id'])
                             if all((gl == r and gop in ('>', '!=') and gr == '0') or (gl, gop, gr, gn) in facts for gl, gop, gr, gn in gf):
                                 return 'ok', 'G2c', 'container was resized to %s before the loop over [0, %s)' % (r, r)
+        # G6b: the index is the result of the object's own index-by-name function over the same container
+        if In['k'] == 'DeclRefExpr' and In['decl'].get('dk') == 'local' and C.startswith('this.') and C.count('.') == 1:
+            from paths import local_init
+            defs = []
+            ini = local_init(f, In['decl']['id'])
+            if ini is not None:
+                defs.append(ini)
+            for a_ in f.all_nodes({'BinaryOperator'}):
+                if a_['op'] == '=':
+                    t_ = f.nodes[f.strip(a_['ch'][0], 'all')]
+                    if t_['k'] == 'DeclRefExpr' and t_['decl'].get('id') == In['decl']['id']:
+                        defs.append(a_['ch'][1])
+            okb = bool(defs)
+            for d_ in defs:
+                dn = f.nodes[f.strip(d_, 'all')]
+                cf = prog.funcs.get(dn.get('callee', {}).get('usr')) if dn['k'] == 'CXXMemberCallExpr' else None
+                on = f.nodes[f.strip(dn['obj'], 'all')] if cf is not None and dn.get('obj') is not None else None
+                if cf is None or on is None or on['k'] != 'CXXThisExpr' or cf.cls != f.cls or not cf.rec.get('const') or len(cf.params) != 1:
+                    okb = False
+                    break
+                key_ = ('idxfn', cf.usr, C)
+                if key_ not in ctx:
+                    try:
+                        import p_c11
+                        al_ = {a: c for a, c in (('parameter', '_parameters'), ('group', '_groups'), ('point', '_points'), ('channel', '_channels'), ('subframe', '_subframe'), ('frame', '_frames')) if c == C[5:]}
+                        ctx[key_] = p_c11.model_index_by_name(cf, C[5:], al_)[0] == 'ok'
+                    except Exception:
+                        ctx[key_] = False
+                if not ctx[key_]:
+                    okb = False
+                    break
+            if okb and not shrinks_between(prog, f, C, f.strip(defs[0], 'all'), s.nid):
+                return 'ok', 'G6', 'index returned by the object\'s own index-by-name function over %s (first match below the size, else it throws)' % C
         # G6: index captured from a search loop, used under the sentinel test
         if In['k'] == 'DeclRefExpr' and In['decl'].get('dk') == 'local':
             ok6 = g6(prog, f, R, s, In, C, facts)
